@@ -39,6 +39,10 @@ type c11Case struct {
 	// while no poll is outstanding and closes gracefully; the client then
 	// polls until it is told the session is closed.
 	Tail int `json:"tail,omitempty"`
+	// TailData: after the backend's final burst and close, and before the first poll, the
+	// client (which does not know yet) posts data on the session; whatever that post is
+	// answered, the polls that follow still have to deliver the burst.
+	TailData bool `json:"tail_data,omitempty"`
 	// CloseRace: instead of the two-way history, the client posts its messages
 	// to a backend that takes SlowMs per message and posts close right behind
 	// the last data post.
@@ -83,6 +87,7 @@ type c11Result struct {
 	JSONClasses   map[string]int    `json:"json_classes,omitempty"`
 	TailCarried   int               `json:"tail_carried"` // messages delivered by polls after the backend's final burst and close
 	TailPolls     int               `json:"tail_polls"`
+	TailDataPosts int               `json:"tail_data_posts"`
 	CloseRaceMsgs int               `json:"close_race_msgs"` // messages that reached the slow backend ahead of the close
 	Injected      int               `json:"injected"`        // messages legitimately changed by injection
 	KeysAdded     int               `json:"keys_added"`      // header keys added by injection
@@ -1216,6 +1221,17 @@ func c11Tail(h http.Handler, s *c11Sess, c c11Case, version int, rng *rand.Rand,
 		violate("C11:tail:backend-could-not-send", "the backend could not write its final burst within 10s")
 		return
 	}
+	dataNote := ""
+	if c.TailData {
+		s.bc.settled(len(tail))
+		d := shimPost(h, "data", nil, []byte(`[{"id":"`+s.id+`","msg":"is anybody there"}]`), shimBoundCall)
+		dataNote = fmt.Sprintf("; a data post made before the first poll was answered %d", d.Status)
+		if d.Panic != "" {
+			violate("C11:panic:"+shimSlug(d.Panic), "data post panicked: "+d.Panic)
+			return
+		}
+		res.TailDataPosts++
+	}
 	var got []shimMsg
 	var sizes []int
 	closedSeen := false
@@ -1246,7 +1262,7 @@ func c11Tail(h http.Handler, s *c11Sess, c c11Case, version int, rng *rand.Rand,
 	}
 	res.TailCarried += len(got)
 	if sig, msg := c11Compare(tail, got, func(_ int, a, g shimMsg) string { return c11Same(a, g) }); sig != "" {
-		violate("C11:server-to-client-before-backend-close:"+sig, fmt.Sprintf("session %s (v%d): the backend sent a final burst of %d messages with no poll outstanding and closed; poll replies %v, then closed=%v: %s", s.id, version, len(tail), sizes, closedSeen, msg))
+		violate("C11:server-to-client-before-backend-close:"+sig, fmt.Sprintf("session %s (v%d): the backend sent a final burst of %d messages with no poll outstanding and closed; poll replies %v, then closed=%v%s: %s", s.id, version, len(tail), sizes, closedSeen, dataNote, msg))
 	}
 }
 
